@@ -13,7 +13,7 @@ from __future__ import annotations
 import itertools
 import time
 
-from .. import core, ilv, ilvrun
+from .. import core, ilv, ilvrun, tlabind
 
 PROPERTY = "C32"
 LEVEL = "model_checking"
@@ -43,6 +43,7 @@ class H:
         self.sig = "observe_on"
         self.focus = ilv.focus_files("observer/scheduledobserver.py", "observer/observeonobserver.py")
         self.allow_thread_errors = raise_at is not None
+        self.sync_log = True  # lock acquisitions per function, for the trace-inclusion binding to SchedObs.tla
 
     def setup(self, run):
         from reactivex import operators as ops
@@ -62,6 +63,8 @@ class H:
                 k = st["n"]
                 st["deliv"].append({"kind": kind, "v": v, "enter": len(run.events), "thread": me.tid, "tname": me.name, "harness": me.harness})
                 run.log("enter", kind, v)
+                if run.sync_log is not None:
+                    run.sync_log.append((me.tid, "deliver", 0, "harness"))
                 ilv.point("in-delivery", voluntary=True)
                 if h.raise_at == k:
                     run.log("raise", k)
@@ -107,6 +110,9 @@ class H:
         st = x.state
         if x.outcome != "quiescent":
             return []
+        if getattr(self, "part", None) is not None and not getattr(x, "_bound", False):
+            x._bound = True
+            bind(self.part, x)
         P = []
         exp = [(k, i if k == "N" else None) for i, k in enumerate(self.seq)]
         got = [(d["kind"], d["v"]) for d in st["deliv"]]
@@ -128,6 +134,45 @@ class H:
             if len(got) < self.raise_at:
                 P.append(("observe_on|undelivered-at-quiescence", f"received {exp} but only {got} delivered before any raise"))
         return P[:3]
+
+
+GRAPH = None
+MODEL_LABEL = {"ELock": "E", "Assign": "E", "Sched": "S", "Resched": "RS", "RLock": "R", "Fault": "R", "Work": "W", "WorkFault": "W"}
+TAU = ("QAppend", "NextItem", "Take")
+
+
+def relabel(lab):
+    name = lab.split("(")[0]
+    return MODEL_LABEL.get(name, name)
+
+
+def project(x):
+    """Implementation trace -> model labels: lock acquisitions in ensure_active / run / the scheduler's schedule, and deliveries."""
+    harness = {t.tid for t in x.threads if t.harness}
+    out = []
+    for (tid, kind, _o, where) in x.sync_log or ():
+        prod = tid in harness
+        if kind == "deliver":
+            out.append("W")
+        elif kind != "acq":
+            continue
+        elif where == "ScheduledObserver.ensure_active":
+            out.append("E")
+        elif where == "ScheduledObserver.run":
+            out.append("R")
+        elif where == "EventLoopScheduler.schedule_absolute":
+            out.append("S" if prod else "RS")
+    return out
+
+
+def bind(part, x):
+    if GRAPH is None:
+        return
+    labels = project(x)
+    ok, at = GRAPH.accepts(labels, lambda l: l in TAU)
+    part.count("tla_traces_accepted" if ok else "tla_traces_rejected")
+    if not ok and len(part.notes) < 3:
+        part.notes.append(f"SchedObs.tla rejects implementation trace {labels} at position {at} (model/code structure mismatch; verdict rests on the direct oracle)")
 
 
 class HReplay:
@@ -215,20 +260,65 @@ def bounds(tier):
     return 2 if tier == "quick" else 3
 
 
-def shard(part, shard_i, nshards, tier, seed, deadline):
+def shard(part, shard_i, nshards, tier, seed, deadline, dot_path=None):
+    global GRAPH
     ilv.install()
+    if dot_path and GRAPH is None:
+        GRAPH = tlabind.Graph(open(dot_path).read(), relabel)
     hs = harnesses(tier)
     for i, h in enumerate(hs):
         if (i + seed) % nshards == shard_i:
             pb = bounds(tier) if not isinstance(h, HReplay) else max(1, bounds(tier) - 1)
+            if isinstance(h, H):
+                h.part = part
             ilvrun.explore_all(part, [h], 0, 1, pb, 0, deadline, horizon=5.0)
+    if GRAPH is not None:
+        for e in GRAPH.used:
+            part.counters["tla_edge:%x" % core.h64(e)] = 1
+        GRAPH.used = set()
 
 
 def run(ctx):
     ctx.bounds = {"PB": bounds(ctx.tier), "harnesses": len(harnesses(ctx.tier))}
     ctx.assumptions = ["list.append / list.pop(0) atomic (GIL), as the library's own comment assumes", "preemption at sync operations and line boundaries of the focus files"]
-    ctx.sharded(shard, nshards=len(harnesses(ctx.tier)))
-    ilvrun.finish_cov(ctx, ctx.total)
+    import os
+    import tempfile
+
+    Pn, Nn = (2, 3) if ctx.tier == "quick" else (2, 4)
+    cfg = tempfile.NamedTemporaryFile("w", suffix=".cfg", dir=tlabind.TLA_DIR, delete=False)
+    cfg.write(f"CONSTANTS P = {Pn}\n          N = {Nn}\n          F = 1\nINIT Init\nNEXT Next\nINVARIANTS InOrderOnce NoDeliveryAfterFault NothingStranded NoPendingRunCancelled\n")
+    cfg.close()
+    try:
+        ver = tlabind.tlc_run("SchedObs.tla", os.path.basename(cfg.name), workers=max(1, min(16, ctx.workers)), timeout=2400)
+        bnd = tlabind.tlc_run("SchedObs.tla", "SchedObs_bind.cfg", dump=True)
+    finally:
+        os.unlink(cfg.name)
+    dot_file, model_edges = None, 0
+    if bnd["dot"]:
+        model_edges = tlabind.Graph(bnd["dot"]).nedges
+        f = tempfile.NamedTemporaryFile("w", suffix=".dot", delete=False)
+        f.write(bnd["dot"])
+        f.close()
+        dot_file = f.name
+    if not ver["ok"]:
+        ctx.total.violation("tla|SchedObs.tla-invariant-violated", "TLC reports an invariant violation in SchedObs.tla (the abstract model, not the code): " + ver["tail"][-600:], {"mode": "tla"})
+    try:
+        ctx.sharded(shard, extra=(dot_file,), nshards=len(harnesses(ctx.tier)))
+    finally:
+        if dot_file:
+            os.unlink(dot_file)
+    ilvrun.finish_cov(ctx, ctx.total, ver["distinct"], ver["states_generated"])
+    edges = [k for k in ctx.total.counters if k.startswith("tla_edge:")]
+    acc, rej = ctx.total.counters.get("tla_traces_accepted", 0), ctx.total.counters.get("tla_traces_rejected", 0)
+    ctx.cov["tla"] = {
+        "model": "vf/tla/SchedObs.tla", "tlc_config": f"P={Pn} producers x N={Nn} items, any delivery may raise, all interleavings", "tlc_ok": ver["ok"],
+        "tlc_distinct_states": ver["distinct"], "tlc_states_generated": ver["states_generated"], "tlc_depth": ver["depth"],
+        "binding_config": "P=1, N=4, any delivery may raise", "binding_graph_states": bnd["distinct"], "binding_graph_edges": model_edges,
+        "impl_traces_accepted": acc, "impl_traces_rejected": rej, "model_edges_exercised_by_impl_traces": len(edges), "model_bound": bool(acc and not rej),
+        "not_bound": "the ReplaySubject harnesses (two threads calling ensure_active) are judged by the direct oracle only",
+    }
+    for k in edges:
+        del ctx.total.counters[k]
 
 
 def replay(case):
